@@ -349,8 +349,16 @@ example :
 example : ([2, 0, 3, 1].map id).Perm (List.range 4) := by decide
 
 /-- statistics on a concrete row and a permutation of it -/
-example : mean [3, 1, 2, 6] = 3 ∧ median [3, 1, 2, 6] = 5/2 ∧ median [6, 2, 3, 1] = 5/2 ∧
-    variance 0 [3, 1, 2, 6] = 7/2 ∧ quantile (1/10) [3, 1, 2, 6] = 13/10 ∧ quantile 1 [3, 1, 2, 6] = 6 := by
+example : mean [3, 1, 2, 6] = 3 ∧ variance 0 [3, 1, 2, 6] = 7/2 := by
+  with_unfolding_all decide +kernel
+
+example : median [3, 1, 2, 6] = 5/2 ∧ median [6, 2, 3, 1] = 5/2 ∧
+    quantile (1/10) [3, 1, 2, 6] = 13/10 ∧ quantile 1 [3, 1, 2, 6] = 6 ∧ quantile 0 [3, 1, 2, 6] = 1 := by
+  have h₁ : sorted [3, 1, 2, 6] = [1, 2, 3, 6] :=
+    sorted_eq_of (by decide) (by with_unfolding_all decide +kernel)
+  have h₂ : sorted [6, 2, 3, 1] = [1, 2, 3, 6] :=
+    sorted_eq_of (by decide) (by with_unfolding_all decide +kernel)
+  simp only [median, quantile, h₁, h₂]
   with_unfolding_all decide +kernel
 
 end StarsimModel.C18
